@@ -496,3 +496,20 @@ Proof.
     destruct (reverse_loop _ mt gd subs gs 0) as [gs'|e| |]; cbn [bind loop_result_ok]; try exact H1; try contradiction.
     symmetry; exact H1.
 Qed.
+
+(* ------------------------------------------------------------------ recursion limit *)
+(* A contextual lookup reached with no recursion budget left is refused; the top-level lookup starts with a
+   budget of SUBST_RECURSION_LIMIT = 2, so contextual lookups nest three deep and the fourth level fails. *)
+Lemma recursion_limit_refuses lookups gd tag pmt si li gs index lk i :
+  get_lookup lookups li = Ok lk ->
+  (exists subs, lk_body lk = LContext subs) \/ (exists subs, lk_body lk = LChain subs) ->
+  find_nth pmt gd (ids gs) index (Z.to_nat si) = Some i -> i < len gs ->
+  apply_subst 0 lookups gd tag pmt si li gs index = Err LimitExceeded.
+Proof.
+  intros Hlk Hb Hn Hi. cbn [apply_subst]. rewrite Hlk. cbn [bind]. rewrite Hn.
+  replace (len gs <=? i) with false by lia.
+  destruct Hb as [(subs & ->)|(subs & ->)]; reflexivity.
+Qed.
+
+Lemma recursion_limit_value : recursion_limit = 2%nat.
+Proof. reflexivity. Qed.
